@@ -81,6 +81,7 @@ theorem v2_transaction_noPanic (ms : Mid) (t : Txn2) (mw : Nat) (hG : GenuineBou
   · simp
   refine bind_noPanic (validateV2CurrencyOverflow_noPanic t) (fun u hov => ?_)
   cases u
+  refine bind_noPanic (validateV2TaxPool_noPanic ms t) (fun _ _ => ?_)
   split
   · simp
   split
@@ -272,6 +273,7 @@ theorem v1_transaction_noPanic (ms : Mid) (t : Txn1) (pid : Id) (mw : Nat) (hG :
   · simp
   refine bind_noPanic (validateCurrencyOverflow_noPanic t) (fun u hov => ?_)
   cases u
+  refine bind_noPanic (validateTaxPool_noPanic ms t) (fun _ _ => ?_)
   split
   · simp
   refine bind_noPanic (validateMinimumValues_noPanic t) (fun _ _ => ?_)
@@ -362,6 +364,8 @@ structure BJ (T : Kind → Id → Prop) (L : Ledger) (ms : Mid) : Prop where
   pool : L.pool ≤ ms.pool
   /-- value conservation and pool solvency in one inequality (no subtraction) -/
   q : 10000 * Phi ms + Psi ms + SFtot L * L.pool ≤ 10000 * V L + PsiL L + SFtot L * ms.pool
+  /-- the potential exceeds `V L` only by outputs that are still immature (claims paid in this block) -/
+  imm : Phi ms ≤ V L + scW (wImm L.child) ms
 
 theorem BJ.phi_le {T L ms} (h : BJ T L ms) (hS : SFtot L ≤ 10000) : Phi ms ≤ V L + ms.pool := by
   have h1 := h.q
@@ -373,17 +377,26 @@ theorem BJ.phi_le {T L ms} (h : BJ T L ms) (hS : SFtot L ≤ 10000) : Phi ms ≤
   generalize SFtot L * ms.pool = b at *
   omega
 
+theorem BJ.pool_mature_le {T L ms} (h : BJ T L ms) : ms.pool + scW (wMat L.child) ms ≤ V L := by
+  have h1 := h.imm
+  have h2 := scW_split L.child ms
+  unfold Phi at h1
+  unfold Cur at *; omega
+
+theorem fc2Sum_le_V (L : Ledger) : fc2Sum L ≤ V L := by unfold fc2Sum V; omega
+
 theorem bj_newMid {T} (L : Ledger) (hcs : CsOkL L) : BJ T L (newMid L) :=
   ⟨rfl, inv_newMid L, (csOk_newMid L).mpr hcs, sfTot_newMid L, Nat.le_refl _, by
-    rw [Phi_newMid, Psi_newMid]; exact Nat.le_refl _⟩
+    rw [Phi_newMid, Psi_newMid]; exact Nat.le_refl _, by rw [Phi_newMid]; omega⟩
 
 /-- one accepted transaction keeps `BJ`, given its conservation and solvency facts -/
 theorem bj_step {T L ms ms'} (h : BJ T L ms) (hI : Inv T ms') (hb : ms'.base = ms.base) (fees claims : Nat)
     (hP : Phi ms' + fees = Phi ms + claims) (hS : sfTot ms' = sfTot ms) (hpl : ms.pool ≤ ms'.pool)
-    (hsv : CsOk ms → CsOk ms' ∧ Psi ms' + 10000 * claims ≤ Psi ms + (ms'.pool - ms.pool) * sfTot ms) :
+    (hsv : CsOk ms → CsOk ms' ∧ Psi ms' + 10000 * claims ≤ Psi ms + (ms'.pool - ms.pool) * sfTot ms)
+    (hwi : scW (wImm L.child) ms + claims ≤ scW (wImm L.child) ms') :
     BJ T L ms' := by
   obtain ⟨c, q⟩ := hsv h.cs
-  refine ⟨hb.trans h.base, hI, c, hS.trans h.sf, Nat.le_trans h.pool hpl, ?_⟩
+  refine ⟨hb.trans h.base, hI, c, hS.trans h.sf, Nat.le_trans h.pool hpl, ?_, by have := h.imm; omega⟩
   have hq := h.q
   rw [h.sf] at q
   have hsplit : SFtot L * ms'.pool = (ms'.pool - ms.pool) * SFtot L + SFtot L * ms.pool := by
@@ -399,22 +412,22 @@ theorem bj_step {T L ms ms'} (h : BJ T L ms) (hI : Inv T ms') (hb : ms'.base = m
 theorem stepV1_eq_vb1Step : @stepV1 = @vb1Step := rfl
 theorem stepV2_eq_vb2Step : @stepV2 = @vb2Step := rfl
 
-theorem v1_fold_noPanic {T} (L : Ledger) (hV : V L < curLimit) (hS : SFtot L ≤ 10000) (pid : Id) (mw : Nat)
-    (l : List Txn1) : ∀ (ms : Mid) (R : List (Kind × Id)) (X : Nat), Ctx T ms.base → BJ T L ms →
+theorem v1_fold_noPanic {T} (L : Ledger) (hV : 2 * V L < curLimit) (hS : SFtot L ≤ 10000)
+    (hmd : 1 ≤ L.P.maturityDelay) (pid : Id) (mw : Nat)
+    (l : List Txn1) : ∀ (ms : Mid) (R : List (Kind × Id)), Ctx T ms.base → BJ T L ms →
     (∀ t ∈ l, SuppOk L t.supp) → Fresh T ms (l.flatMap Txn1.created ++ R) → checkProofIds pid mw ms l = true →
     (∀ t ∈ l, (t.sfOuts.map (·.2.1)).sum < u64Limit) →
-    V L + ms.pool + (l.map (Txn1.taxes L)).sum + X < curLimit →
     NoPanic (l.foldlM (vb1Step pid mw) ms) := by
   induction l with
-  | nil => intro ms R X _ _ _ _ _ _ _; simp [pure, Except.pure]
+  | nil => intro ms R _ _ _ _ _ _; simp [pure, Except.pure]
   | cons t l ih =>
-    intro ms R X hc hJ hsupp hF hchk hnw hroom
-    simp only [List.map_cons, List.sum_cons] at hroom
+    intro ms R hc hJ hsupp hF hchk hnw
     rw [List.foldlM_cons]
     have hb := hJ.base
     have hphi := hJ.phi_le hS
+    have hpm := hJ.pool_mature_le
     have hsu : SuppOk ms.base t.supp := by rw [hb]; exact hsupp t List.mem_cons_self
-    have hG := genuineBound1_of_inv hc hJ.inv hsu (by rw [hb]; exact hV) (by unfold Cur at *; omega)
+    have hG := genuineBound1_of_inv hc hJ.inv hsu (by rw [hb]; omega) (by unfold Cur at *; omega)
     simp only [List.flatMap_cons, List.append_assoc] at hF
     have hchk' := hchk
     unfold checkProofIds at hchk'
@@ -432,43 +445,44 @@ theorem v1_fold_noPanic {T} (L : Ledger) (hV : V L < curLimit) (hS : SFtot L ≤
         (by rw [hb]; unfold Cur at *; omega) hv
       rw [ha]; intro m hm; cases hm
     · obtain ⟨_, hv, ha⟩ := bind_ok_iff.1 h1
-      obtain ⟨hI1, hF1, hb1, hP1, hS1, hpl1, hsv1, hpf1⟩ := v1txn_conserves hc hJ.inv hsu hF hlen
+      obtain ⟨hI1, hF1, hb1, hP1, hS1, hpl1, hsv1, hpf1, hwi1⟩ := v1txn_conserves hc hJ.inv hsu hF hlen
         (hnw t List.mem_cons_self) hsfb hv ha
-      have hJ1 := bj_step hJ hI1 hb1 _ _ hP1 hS1 hpl1 hsv1
+      have hJ1 := bj_step hJ hI1 hb1 _ _ hP1 hS1 hpl1 hsv1 (by have := hwi1 (by rw [hb]; exact hmd); rw [hb] at this; exact this)
       have hstep : stepV1 pid mw ms t = .ok ms1 := by rw [stepV1_eq_vb1Step]; exact h1
       rw [hstep] at hchk'; simp only [] at hchk'
-      refine ih ms1 R X (hb1 ▸ hc) hJ1 (fun t' ht' => hsupp t' (List.mem_cons_of_mem _ ht')) hF1 hchk'.2
-        (fun t' ht' => hnw t' (List.mem_cons_of_mem _ ht')) ?_
-      rw [hpf1, hb]; unfold Cur at *; omega
+      exact ih ms1 R (hb1 ▸ hc) hJ1 (fun t' ht' => hsupp t' (List.mem_cons_of_mem _ ht')) hF1 hchk'.2
+        (fun t' ht' => hnw t' (List.mem_cons_of_mem _ ht'))
 
 /-- the state after the v1 transactions of an accepted prefix -/
 theorem v1_fold_state {T} (L : Ledger) (pid : Id) (mw : Nat) (l : List Txn1) (ms ms' : Mid) (R : List (Kind × Id))
     (hc : Ctx T ms.base) (hJ : BJ T L ms) (hsupp : ∀ t ∈ l, SuppOk L t.supp)
     (hF : Fresh T ms (l.flatMap Txn1.created ++ R)) (hchk : checkProofIds pid mw ms l = true)
-    (hnw : ∀ t ∈ l, (t.sfOuts.map (·.2.1)).sum < u64Limit) (hS : SFtot L ≤ 10000)
+    (hnw : ∀ t ∈ l, (t.sfOuts.map (·.2.1)).sum < u64Limit) (hS : SFtot L ≤ 10000) (hmd : 1 ≤ L.P.maturityDelay)
     (h : l.foldlM (vb1Step pid mw) ms = .ok ms') :
     BJ T L ms' ∧ Fresh T ms' R ∧ ms'.pool = ms.pool + (l.map (Txn1.taxes L)).sum := by
   have hsfb : sfTot ms < u64Limit := lt_u64 (by rw [hJ.sf]; exact hS)
   rw [← stepV1_eq_vb1Step] at h
-  obtain ⟨hI1, hF1, hb1, hP1, hS1, _, hpl1, hsv1, hpf1⟩ := loop_v1 pid mw l ms ms' R hc hJ.inv
+  obtain ⟨hI1, hF1, hb1, hP1, hS1, _, hpl1, hsv1, hpf1, hwi1⟩ := loop_v1 pid mw l ms ms' R hc hJ.inv
     (fun t ht => by rw [hJ.base]; exact hsupp t ht) hF hchk hnw hsfb h
-  exact ⟨bj_step hJ hI1 hb1 _ _ hP1 hS1 hpl1 hsv1, hF1, by rw [hpf1, hJ.base]⟩
+  exact ⟨bj_step hJ hI1 hb1 _ _ hP1 hS1 hpl1 hsv1 (by have := hwi1 (by rw [hJ.base]; exact hmd); rw [hJ.base] at this; exact this),
+    hF1, by rw [hpf1, hJ.base]⟩
 
-theorem v2_fold_noPanic {T} (L : Ledger) (hV : V L < curLimit) (hS : SFtot L ≤ 10000) (mw : Nat)
-    (l : List Txn2) : ∀ (ms : Mid) (R : List (Kind × Id)) (X : Nat), Ctx T ms.base →
+theorem v2_fold_noPanic {T} (L : Ledger) (hV : 2 * V L < curLimit) (hS : SFtot L ≤ 10000)
+    (hmd : 1 ≤ L.P.maturityDelay) (mw : Nat)
+    (l : List Txn2) : ∀ (ms : Mid) (R : List (Kind × Id)), Ctx T ms.base →
     ms.base.child ≥ ms.base.P.ephemeralFix → BJ T L ms →
     Fresh T ms (l.flatMap Txn2.created ++ R) →
     (∀ t ∈ l, (t.sfOuts.map (·.2.1)).sum < u64Limit) →
-    V L + ms.pool + (l.map Txn2.taxes).sum + X < curLimit →
     NoPanic (l.foldlM (vb2Step mw) ms) := by
   induction l with
-  | nil => intro ms R X _ _ _ _ _ _; simp [pure, Except.pure]
+  | nil => intro ms R _ _ _ _ _; simp [pure, Except.pure]
   | cons t l ih =>
-    intro ms R X hc hfix hJ hF hnw hroom
-    simp only [List.map_cons, List.sum_cons] at hroom
+    intro ms R hc hfix hJ hF hnw
     rw [List.foldlM_cons]
     have hb := hJ.base
-    have hG := genuineBound2_of_inv hc hJ.inv (by rw [hb]; exact hV)
+    have hpm := hJ.pool_mature_le
+    have hf2 := fc2Sum_le_V L
+    have hG := genuineBound2_of_inv hc hJ.inv (by rw [hb]; omega)
     simp only [List.flatMap_cons, List.append_assoc] at hF
     have hsfb : sfTot ms < u64Limit := lt_u64 (by rw [hJ.sf]; exact hS)
     refine bind_noPanic ?_ (fun ms1 h1 => ?_)
@@ -476,45 +490,43 @@ theorem v2_fold_noPanic {T} (L : Ledger) (hV : V L < curLimit) (hS : SFtot L ≤
       refine bind_noPanic (v2_transaction_noPanic ms t mw hG) (fun _ hv => ?_)
       have hov : validateV2CurrencyOverflow t = .ok () := by
         have := (validateV2Transaction_ok_iff ms t mw).1 hv
-        exact this.2.1
+        exact this.2.1.1
       obtain ⟨hfcv, hrnv⟩ := v2_created_bounds hov
       obtain ⟨ms1, ha⟩ := v2txn_total hc hfix hJ.inv hF hJ.cs (by rw [hJ.sf]; exact hS)
-        (by unfold Cur at *; omega) hfcv hrnv hv
+        (by rw [hb]; unfold Cur at *; omega) hfcv hrnv hv
       rw [ha]; intro m hm; cases hm
     · obtain ⟨_, hv, ha⟩ := bind_ok_iff.1 h1
-      obtain ⟨hI1, hF1, hb1, hP1, hS1, hpl1, hsv1, hpf1⟩ := v2txn_conserves hc hfix hJ.inv hF
+      obtain ⟨hI1, hF1, hb1, hP1, hS1, hpl1, hsv1, hpf1, hwi1⟩ := v2txn_conserves hc hfix hJ.inv hF
         (hnw t List.mem_cons_self) hsfb hv ha
       have hJ1 := bj_step hJ hI1 hb1 (t.fee + t.forfeits) _ (by rw [← Nat.add_assoc]; exact hP1) hS1 hpl1 hsv1
-      refine ih ms1 R X (hb1 ▸ hc) (hb1 ▸ hfix) hJ1 hF1 (fun t' ht' => hnw t' (List.mem_cons_of_mem _ ht')) ?_
-      rw [hpf1]; unfold Cur at *; omega
+        (by have := hwi1 (by rw [hb]; exact hmd); rw [hb] at this; exact this)
+      exact ih ms1 R (hb1 ▸ hc) (hb1 ▸ hfix) hJ1 hF1 (fun t' ht' => hnw t' (List.mem_cons_of_mem _ ht'))
 
 -- ================================================================= whole blocks
 
-/-- Solvent ledger: the value function fits in a `Currency`, at most 10000 siafunds are live, and no live
-siafund output has a claim start above the pool. (`WF` carries `ParamsOk`.) -/
-def Solvent (L : Ledger) : Prop := V L < curLimit ∧ SFtot L ≤ 10000 ∧ CsOkL L
+/-- Solvent ledger: twice the value function fits in a `Currency` (one `V L` bounds the pool plus the mature
+outputs that can fund tax in a block, the other the value locked in v2 contracts that renewals can roll over),
+at most 10000 siafunds are live, no live siafund output has a claim start above the pool, and outputs created
+by claims / resolutions / payouts are not spendable in the block that creates them (`maturityDelay ≥ 1`).
+(`WF` carries `ParamsOk`.) -/
+def Solvent (L : Ledger) : Prop := 2 * V L < curLimit ∧ SFtot L ≤ 10000 ∧ CsOkL L ∧ 1 ≤ L.P.maturityDelay
 
 instance (L : Ledger) : Decidable (Solvent L) := by unfold Solvent CsOkL; exact inferInstance
 
-/-- room in the pool for the siafund tax the block collects -/
-def TaxRoom (L : Ledger) (b : Block) : Prop := V L + L.pool + b.taxSum L < curLimit
-
-instance (L : Ledger) (b : Block) : Decidable (TaxRoom L b) := by unfold TaxRoom; exact inferInstance
-
-/-- PARTIAL (`c10_validate_no_panic`).  Full intended statement:
-`WF L → Solvent L → L.child ≥ L.P.ephemeralFix → FreshIds L b → SfNoWrap b → IdListsCover L b pid →
- ∀ msg, validateBlock L b pid ≠ .error (.panic msg)`.
-Proved here under the extra hypothesis `TaxRoom L b` (the tax of all contracts the block forms, added to
-`V L + L.pool`, fits in 128 bits).  Gap: `TaxRoom` follows from a slightly stronger `Solvent`
-(`2·V L < 2^128`) by the argument that contracts formed in a block are funded by *mature* outputs and
-rollovers only (claim, payout and resolution outputs are immature), so the tax collected in one block is
-at most `V L − L.pool`; that needs a maturity-weighted potential through all loops and is not done.
-`FreshIds` (hash-collision freedom) is necessary in the model: `c10_collision_panics_model`.
-`SfNoWrap`, `IdListsCover` are the C01 modelling-artefact hypotheses. -/
-theorem c10_validate_no_panic_partial {L : Ledger} (hw : WF L) (hs : Solvent L) (hfix : L.child ≥ L.P.ephemeralFix)
-    (b : Block) (pid : Id) (hf : FreshIds L b) (hnw : SfNoWrap b) (hcov : IdListsCover L b pid)
-    (hroom : TaxRoom L b) : ∀ msg, validateBlock L b pid ≠ .error (.panic msg) := by
-  obtain ⟨hV, hS, hcs⟩ := hs
+/-- `validateBlock` (which applies each transaction after validating it) never panics on a well-formed solvent
+ledger with the ephemeral-output fix active.
+Hypotheses on the block: `FreshIds` — hash-collision freedom, *necessary in the model*
+(`c10_collision_panics_model`); `SfNoWrap`, `IdListsCover` — the two modelling-artefact hypotheses of C01
+(siafund output sums below 2^64: block weight; id lists long enough: `ValidOutputID(i)` exists for every `i`).
+The window hypothesis is necessary too: `c10_legacy_window_panic`.
+Why no arithmetic panics: sums over genuine parents are bounded by the potential, which is at most `2·V L`;
+claims need `claimStart ≤ pool` (`CsOk`) and at most 10000 siafunds; the tax added to the pool is funded by the
+transaction's *mature* inputs and by rollovers out of base contracts, and the potential exceeds `V L` only by
+immature outputs, so `pool + tax ≤ 2·V L`. -/
+theorem c10_validate_no_panic {L : Ledger} (hw : WF L) (hs : Solvent L) (hfix : L.child ≥ L.P.ephemeralFix)
+    (b : Block) (pid : Id) (hf : FreshIds L b) (hnw : SfNoWrap b) (hcov : IdListsCover L b pid) :
+    ∀ msg, validateBlock L b pid ≠ .error (.panic msg) := by
+  obtain ⟨hV, hS, hcs, hmd⟩ := hs
   show NoPanic (validateBlock L b pid)
   rw [validateBlock_eq]
   refine bind_noPanic (validateOrphan_noPanic L b) (fun _ _ => ?_)
@@ -526,14 +538,12 @@ theorem c10_validate_no_panic_partial {L : Ledger} (hw : WF L) (hs : Solvent L) 
   have hc : Ctx (Tb L b) (newMid L).base := ctx_of_wf hw hf
   have hF0 := fresh_newMid hf
   unfold Block.created at hF0
-  unfold TaxRoom Block.taxSum at hroom
   have hJ0 : BJ (Tb L b) L (newMid L) := bj_newMid L hcs
-  refine bind_noPanic (v1_fold_noPanic L hV hS pid b.maxWeight b.txns1 (newMid L) _ ((b.v2txns.map Txn2.taxes).sum)
-    hc hJ0 hsupp hF0 hcov.1 hnw.1 (by show V L + L.pool + _ + _ < curLimit; unfold Cur at *; omega)) (fun s hs1 => ?_)
-  obtain ⟨hJ1, hF1, hp1⟩ := v1_fold_state L pid b.maxWeight b.txns1 (newMid L) s _ hc hJ0 hsupp hF0 hcov.1 hnw.1 hS hs1
+  refine bind_noPanic (v1_fold_noPanic L hV hS hmd pid b.maxWeight b.txns1 (newMid L) _
+    hc hJ0 hsupp hF0 hcov.1 hnw.1) (fun s hs1 => ?_)
+  obtain ⟨hJ1, hF1, hp1⟩ := v1_fold_state L pid b.maxWeight b.txns1 (newMid L) s _ hc hJ0 hsupp hF0 hcov.1 hnw.1 hS hmd hs1
   have hb1 := hJ1.base
-  exact v2_fold_noPanic L hV hS b.maxWeight b.v2txns s _ 0 (by rw [hb1]; exact hc) (by rw [hb1]; exact hfix) hJ1 hF1 hnw.2
-    (by rw [hp1]; show V L + (L.pool + _) + _ + 0 < curLimit; unfold Cur at *; omega)
+  exact v2_fold_noPanic L hV hS hmd b.maxWeight b.v2txns s _ (by rw [hb1]; exact hc) (by rw [hb1]; exact hfix) hJ1 hF1 hnw.2
 
 /-- A block accepted by validation is applied without panic; the Foundation subsidy is computable whenever
 the parameters are sane (`ParamsOk`, part of `WF`). -/
@@ -546,16 +556,16 @@ the collected tax can fund. -/
 theorem c10_solvent_preserved {L : Ledger} {b : Block} {pid : Id} {msv : Mid}
     (hw : WF L) (hs : Solvent L) (hf : FreshIds L b) (hfix : L.child ≥ L.P.ephemeralFix) (hnw : SfNoWrap b)
     (hcov : IdListsCover L b pid) (hv : validateBlock L b pid = .ok msv)
-    (hroom : V L + blockReward L + subsidyVal L + L.pool + b.taxSum L < curLimit) :
+    (hroom : 2 * (V L + blockReward L + subsidyVal L + L.pool + b.taxSum L) < curLimit) :
     ∀ L' ms, applyBlock L b = .ok (L', ms) → Solvent L' ∧ WF L' := by
-  obtain ⟨hV, hS, hcs⟩ := hs
+  obtain ⟨hV, hS, hcs, hmd⟩ := hs
   obtain ⟨ms, hm, hI, hb, hP, hSf, hpl, hsv, hpf⟩ := block_conserves hw hf hfix hnw hcov hv
   intro L' ms' h
   have hwf := (C01.c01_wf_preserved hw hf hfix hnw hcov hv L' ms' h).1
   unfold applyBlock at h; rw [hm] at h; cases h
   obtain ⟨c, q⟩ := hsv ((csOk_newMid L).mpr hcs)
   rw [Psi_newMid] at q
-  refine ⟨⟨?_, ?_, csOkL_commit c _⟩, hwf⟩
+  refine ⟨⟨?_, ?_, csOkL_commit c _, by show 1 ≤ ms.base.P.maturityDelay; rw [hb]; exact hmd⟩, hwf⟩
   · rw [V_commit]
     have h1 := PsiL_le L
     have h2 : (ms.pool - L.pool) * SFtot L + SFtot L * L.pool = SFtot L * ms.pool := by
@@ -566,6 +576,16 @@ theorem c10_solvent_preserved {L : Ledger} {b : Block} {pid : Id} {msv : Mid}
     generalize SFtot L * ms.pool = f at *
     unfold Cur at *; omega
   · rw [SF_commit, hSf]; exact hS
+
+-- ================================================================= the hypotheses are satisfiable
+
+/-- the concrete block of C01 (v1 payment, proof, expiry; v2 payment, formation, claim, expiration) -/
+example : ∀ msg, validateBlock exL exB 98 ≠ .error (.panic msg) :=
+  c10_validate_no_panic ex_wf (by decide) (by decide) exB 98 ex_fresh ex_nowrap ex_cover
+
+example : ∀ L' ms, applyBlock exL exB = .ok (L', ms) → Solvent L' ∧ WF L' := by
+  obtain ⟨ms, hv⟩ := ex_valid
+  exact c10_solvent_preserved ex_wf (by decide) ex_fresh (by decide) ex_nowrap ex_cover hv (by decide)
 
 -- ================================================================= hash-collision freedom is necessary in the model
 
@@ -592,18 +612,22 @@ def cB : Block :=
 
 /-- without `FreshIds` the model's `validateBlock` can panic although every other hypothesis holds -/
 theorem c10_collision_panics_model :
-    WF cL ∧ Solvent cL ∧ cL.child ≥ cL.P.ephemeralFix ∧ SfNoWrap cB ∧ IdListsCover cL cB 98 ∧ TaxRoom cL cB ∧
+    WF cL ∧ Solvent cL ∧ cL.child ≥ cL.P.ephemeralFix ∧ SfNoWrap cB ∧ IdListsCover cL cB 98 ∧
     ¬ FreshIds cL cB ∧ validateBlock cL cB 98 = .error (.panic "missing SiacoinElement") := by
   refine ⟨⟨by decide, by decide, by decide, by decide, by unfold ParamsOk; decide⟩, by decide, by decide,
-    by constructor <;> decide, ⟨by decide, by decide⟩, by decide, ?_, by rfl⟩
+    by constructor <;> decide, ⟨by decide, by decide⟩, ?_, by rfl⟩
   intro h
   exact h.2 (Kind.sf, 7) (by decide) Kind.sc (by decide)
 
--- ================================================================= the legacy window: a panic is still reachable
+-- ================================================================= the legacy window: the tax-pool overflow
 
 /-! Below `EphemeralOutputHeight` the value claimed for an ephemeral siacoin parent is not checked, so a block can
-conjure 27 inputs of almost 2^128 each and form 27 contracts whose tax (1/26 of 2^128 each) overflows
-`SiafundTaxRevenue` in `createFc2` (`addC pool tax`), which `validateBlock` executes between transactions. -/
+conjure 27 inputs of almost 2^128 each and form 27 contracts whose tax (1/26 of 2^128 each) would overflow
+`SiafundTaxRevenue` in `createFc2` (`addC pool tax`), which `validateBlock` executes between transactions.
+This history was found as a `decide`d PANIC witness of the model (`validateBlock pL pB 98 = .error (.panic "overflow")`),
+replayed on the Go code (C10 mutant `v2:ephemeral-inflated-contract-tax`), and repaired by the `fix:` commit
+"reject transactions whose contract tax overflows the siafund pool" (`validateTaxPool` / `validateV2TaxPool` in the
+model). The theorem below is the regression guard: the same block is now REJECTED, the 26-formation block accepted. -/
 def bigY : Nat := (curLimit - 1) / 26 * 25
 def lgFc : Fc2 :=
   { capacity := 10, filesize := 0, root := 0, proofHeight := 10, expHeight := 20,
@@ -624,12 +648,12 @@ def pB : Block :=
     foundationOutId := 31, expiring := [], headerOk := true, blockId := 99, maxWeight := 100 }
 def pB26 : Block := { pB with v2 := some (5, true, pT0 :: (List.range 26).map pT) }
 
-/-- with 26 formations the block is accepted, with 27 `validateBlock` panics; every hypothesis of the no-panic
-theorem except `child ≥ ephemeralFix` (and the `TaxRoom` of the partial version) holds -/
-theorem c10_legacy_window_panic :
+/-- with 26 formations the block is accepted; with 27 it is rejected by the tax-pool check (it used to panic);
+every hypothesis of the no-panic theorem except `child ≥ ephemeralFix` holds -/
+theorem c10_legacy_window_tax_overflow_rejected :
     WF pL ∧ Solvent pL ∧ pL.child < pL.P.ephemeralFix ∧ FreshIds pL pB ∧ SfNoWrap pB ∧ IdListsCover pL pB 98 ∧
     (match validateBlock pL pB26 98 with | .ok _ => true | .error _ => false) = true ∧
-    validateBlock pL pB 98 = .error (.panic "overflow") := by
+    (match validateBlock pL pB 98 with | .error (.reject _) => true | _ => false) = true := by
   refine ⟨⟨by decide, by decide, by decide, by decide, by unfold ParamsOk; decide⟩, by decide, by decide,
     ⟨by decide, ?_⟩, by constructor <;> decide, ⟨by decide, by decide⟩, by decide, by rfl⟩
   intro p hp k
